@@ -3,9 +3,9 @@
 # Confirms a seeded change (compiles, demo fails with / passes without, full suite passes with it),
 # stores it under /verif/seeded/Cnn/, then runs ./check Cnn against the mutated tree (AGV_REPO).
 # Uses one persistent scratch worktree + shadow so builds are incremental.
-PID="$1"; OUT="${2:-/tmp/agv-seed-$PID-out}"
+PID="$1"; OUT="${2:-/tmp/agv-seed-$PID-out}"; NAME="${3:-$PID}"
 WT=/var/tmp/agv-mut/repo; SH=/var/tmp/agv-mut/shadow; TGT=/var/tmp/agv-mut/target
-LOG=/var/tmp/agv-mut/logs/$PID; mkdir -p "$LOG" /var/tmp/agv-mut
+LOG=/var/tmp/agv-mut/logs/$NAME; mkdir -p "$LOG" /var/tmp/agv-mut
 export CARGO_NET_OFFLINE=true CARGO_TARGET_DIR=$TGT
 set -u
 if [ ! -d "$WT" ]; then git -C /repo worktree add -q "$WT" HEAD || exit 2; fi
@@ -33,9 +33,9 @@ cd /verif
 env -u CARGO_TARGET_DIR AGV_REPO=$WT AGV_SHADOW=$SH ./check "$PID" > "$LOG/check.log" 2>&1; rc_chk=$?
 res "check rc=$rc_chk $(grep -E '^VIOLATION' "$LOG/check.log" | head -1)"
 # 5. store
-mkdir -p /verif/seeded/$PID
-cp "$OUT/patch.diff" /verif/seeded/$PID/patch.diff; cp "$OUT/demo.rs" /verif/seeded/$PID/demo.rs
-python3 - "$OUT/meta.json" "$LOG/summary.txt" /verif/seeded/$PID/meta.json <<'PY'
+mkdir -p /verif/seeded/$NAME
+cp "$OUT/patch.diff" /verif/seeded/$NAME/patch.diff; cp "$OUT/demo.rs" /verif/seeded/$NAME/demo.rs
+python3 - "$OUT/meta.json" "$LOG/summary.txt" /verif/seeded/$NAME/meta.json <<'PY'
 import json,sys
 m=json.load(open(sys.argv[1])); m["confirmation"]=open(sys.argv[2]).read().splitlines()
 json.dump(m,open(sys.argv[3],"w"),indent=1)
